@@ -58,7 +58,7 @@ func (b *exampleBuilder) buildExampleForObjectNode(node *internalSchema.ObjectNo
 
 	buf.WriteRune('{')
 	children := node.Children()
-	length := len(children)
+	first := true
 	for i, childNode := range children {
 		ex, err := b.Build(childNode)
 		if err != nil {
@@ -74,13 +74,16 @@ func (b *exampleBuilder) buildExampleForObjectNode(node *internalSchema.ObjectNo
 			return nil, err
 		}
 
+		// The separator depends on what has been written, not on the index:
+		// children may be omitted.
+		if !first {
+			buf.WriteRune(',')
+		}
+		first = false
 		buf.WriteRune('"')
 		buf.Write(k)
 		buf.WriteString(`":`)
 		buf.Write(ex)
-		if i+1 != length {
-			buf.WriteRune(',')
-		}
 	}
 	buf.WriteRune('}')
 	// The buffer goes back to the pool: hand out a copy, not its storage.
@@ -114,8 +117,8 @@ func (b *exampleBuilder) buildExampleForArrayNode(node *internalSchema.ArrayNode
 
 	buf.WriteRune('[')
 	children := node.Children()
-	length := len(children)
-	for i, childNode := range children {
+	first := true
+	for _, childNode := range children {
 		ex, err := b.Build(childNode)
 		if err != nil {
 			return nil, err
@@ -125,10 +128,13 @@ func (b *exampleBuilder) buildExampleForArrayNode(node *internalSchema.ArrayNode
 			continue
 		}
 
-		buf.Write(ex)
-		if i+1 != length {
+		// The separator depends on what has been written, not on the index:
+		// children may be omitted.
+		if !first {
 			buf.WriteRune(',')
 		}
+		first = false
+		buf.Write(ex)
 	}
 	buf.WriteRune(']')
 	// The buffer goes back to the pool: hand out a copy, not its storage.
